@@ -4,21 +4,25 @@ In the scratch worktree /tmp/seedwt (HEAD of /repo): demo passes on the clean tr
 patch.diff applied the crate builds, the whole existing suite passes and the demo fails.
 Writes the outcome into seeded/<id>/meta.json ("confirmed": {...})."""
 import json, os, subprocess, sys
-WT = "/tmp/seedwt"
+BASE = None
+WT = os.environ.get("SEED_WT", "/tmp/seedwt")
 
 def sh(cmd, cwd=WT, timeout=3600):
     env = dict(os.environ, CARGO_NET_OFFLINE="true")
     return subprocess.run(cmd, shell=True, cwd=cwd, env=env, stdout=subprocess.PIPE, stderr=subprocess.STDOUT, text=True, timeout=timeout)
 
-def reset():
-    sh(f"git checkout -q --detach $(git -C /repo rev-parse HEAD) && git checkout -- . && git clean -fdq -e target")
+def reset(base=None):
+    sh("git checkout -- . ; git clean -fdq -e target")
+    sh(f"git checkout -q --detach {base or '$(git -C /repo rev-parse HEAD)'} && git checkout -- . && git clean -fdq -e target")
 
 def main():
     if not os.path.isdir(WT):
         sh(f"git -C /repo worktree add --detach {WT} HEAD -q", cwd="/")
     for d in sys.argv[1:]:
         d = os.path.abspath(d)
-        reset()
+        mp0 = os.path.join(d, "meta.json")
+        base = (json.load(open(mp0)).get("base_commit") if os.path.exists(mp0) else None)
+        reset(base)
         # demos locate the tree either by cwd or relative to their own path (<tree>/out/m/demo.sh)
         sh(f"rm -rf {WT}/out && mkdir -p {WT}/out && cp -r {d} {WT}/out/m")
         demo = os.path.join(WT, "out", "m", "demo.sh")
@@ -32,7 +36,7 @@ def main():
             res = {"applies": True, "demo_clean_rc": r0.returncode, "suite_passed_failed": t.stdout.strip(),
                    "demo_patched_rc": r1.returncode, "demo_patched_output": r1.stdout[-600:],
                    "ok": r0.returncode == 0 and r1.returncode not in (0, 99) and t.stdout.strip().endswith(" 0") and not t.stdout.strip().startswith("0")}
-        reset()
+        reset(base)
         sh(f"rm -rf {WT}/out")
         mp = os.path.join(d, "meta.json")
         m = json.load(open(mp)) if os.path.exists(mp) else {}
